@@ -68,7 +68,7 @@ def _compare(chk, W, label, op, opt, what):
     return r
 
 
-def _check_tree(chk, W, label, op, group):
+def _check_tree(chk, W, label, op, group, reopt=False):
     from nifty.cl.operator_tree_optimiser import _optimise_operator, optimise_operator
     ift = W.ift
     label = f"{group}: {label}"
@@ -76,7 +76,11 @@ def _check_tree(chk, W, label, op, group):
     with SX.concolic(W.shadow):
         before = flat(op(W.part(keys)))
     # the core on a deep copy (what optimise_operator does before its self-check)
-    core = _optimise_operator(deepcopy(op))
+    try:
+        core = _optimise_operator(deepcopy(op))
+    except Exception as e:  # noqa: BLE001
+        chk.obligation(f"{label}: _optimise_operator(deepcopy(op)) returns an operator", "refuted", backend="native", detail=f"{type(e).__name__}: {e}"[:300], model=dict(tree=label))
+        return
     _compare(chk, W, label, op, core, "_optimise_operator(deepcopy(op))")
     # the public entry point (float self-check inside)
     ift.random.push_sseq_from_seed(11)
@@ -95,6 +99,15 @@ def _check_tree(chk, W, label, op, group):
         ift.random.pop_sseq()
     if pub is not None:
         _compare(chk, W, label, op, pub, "optimise_operator(op)")
+    if pub is not None and reopt:
+        # optimising an optimised tree (placeholders, re-inserted sub-trees and shortened chains of the first pass are its input);
+        # only for the catalogue: its labels are deterministic, so that a listed finding stays identifiable under every VERIF_SEED
+        try:
+            again = _optimise_operator(deepcopy(pub))
+        except Exception as e:  # noqa: BLE001
+            chk.obligation(f"{label}: an optimised tree can be optimised again", "refuted", backend="native", detail=f"{type(e).__name__}: {e}"[:300])
+        else:
+            _compare(chk, W, label, op, again, "_optimise_operator(optimise_operator(op))")
     with SX.concolic(W.shadow) as pc:
         after = flat(op(W.part(keys)))
         pc = list(pc)
@@ -133,6 +146,10 @@ def _catalogue(ift, W):
     mm = nn * a
     T["nested shared subtrees: m*m + n with m = n*a, n = arctan c + sin b"] = mm * mm + nn
     T["nested shared subtrees under chains: exp(m) + m + n"] = mm.exp() + mm + nn
+    # a shared sub-operator with a multi-domain target, used under two different heads
+    X = a.exp().ducktape_left("u") + b.sin().ducktape_left("v")
+    u, v = ift.FieldAdapter(W.dt, "u"), ift.FieldAdapter(W.dt, "v")
+    T["shared multi-domain-valued sub-operator: (u*v)(X) + tanh(u+v)(X) with X = {u: exp a, v: sin b}"] = (u * v) @ X + (u + v).tanh() @ X
     return T
 
 
@@ -144,7 +161,7 @@ def sec_catalogue(chk):
     with objx.patched():
         W = MultiWorld(ift, ("a", "b", "c"), n=N, sign="real")
         for name, op in _catalogue(ift, W).items():
-            _check_tree(chk, W, name, op, "catalogue")
+            _check_tree(chk, W, name, op, "catalogue", reopt=True)
 
 
 def sec_same_chain_twice(chk):
